@@ -5,6 +5,7 @@
 package progs
 
 import (
+	"bytes"
 	"strings"
 
 	"github.com/z7zmey/php-parser/pkg/ast"
@@ -27,6 +28,26 @@ func Options(v px.Ver) phpgen.Options {
 		NoPHP5NewChain:       harness.FindingOpen("php5-new-chain-span"),
 		NoEncapsedVarDim:     harness.FindingOpen("encapsed-var-dim-span"),
 	}
+}
+
+// Padding draws, for about one case in eight, inline HTML to put in front of the program so that
+// all of its tokens lie beyond a size threshold: > 256 lines, > 65536 bytes, > 65536 lines (LF or CRLF).
+func Padding(rt *rapid.T) []byte {
+	switch rapid.IntRange(0, 31).Draw(rt, "padding") {
+	case 0:
+		harness.Class("padding:300-lines")
+		return bytes.Repeat([]byte("x\n"), 300)
+	case 1:
+		harness.Class("padding:66000-bytes-one-line")
+		return bytes.Repeat([]byte("a"), 66000)
+	case 2:
+		harness.Class("padding:66000-lines")
+		return bytes.Repeat([]byte("\n"), 66000)
+	case 3:
+		harness.Class("padding:33000-crlf-lines")
+		return bytes.Repeat([]byte("\r\n"), 33000)
+	}
+	return nil
 }
 
 // Case is one generated program.
